@@ -3,122 +3,361 @@
 package actor
 
 import (
+	"fmt"
 	"reflect"
 	"sort"
 	"strings"
+	"sync"
 	"sync/atomic"
+	"unsafe"
 
 	"github.com/kercylan98/vivid"
 	"github.com/kercylan98/vivid/internal/messages"
 )
 
-// Accessors injected by the verification harness through `go build -overlay` (never committed).
+// Accessors of the actor-runtime harness (C03 C05 C06 C08 C09 C19), injected through `go build -overlay` (never committed
+// to the repository). Whatever the public API offers is read through it (Ref, Parent, Children, Mailbox, EventStream,
+// vivid.SupervisionContext). Everything else is an unexported field; it is located by reflection - the current field
+// name as a fast path, then the ROLE of the field (its type) - and read through reflect.NewAt(unsafe.Pointer(f.UnsafeAddr())),
+// locks only through Lock()/Unlock(), containers only through Len / range. An observation that cannot be located in the
+// build under test is reported by XVUnavailable (the harness lists it in the report's info and projects it out of the
+// comparison on both sides); it never fails the build.
 
 type XVCtxInfo struct {
-	Path      string
-	HasParent bool
-	State     int32
-	Zombie    bool
-	StashLen  int
-	Children  []string
-	Watchers  []string
-	StackLen  int
-	Actor     vivid.Actor
-	Mailbox   vivid.Mailbox
-	Ref       vivid.ActorRef
-	Stash     []vivid.Envelop
+	Path       string
+	HasParent  bool
+	State      int32
+	Zombie     bool
+	Restarting bool // a restart is in progress (the context's restart marker is set)
+	StashLen   int
+	Children   []string
+	Watchers   []string
+	StackLen   int
+	Actor      vivid.Actor
+	Mailbox    vivid.Mailbox
+	Ref        vivid.ActorRef
+	Stash      []vivid.Envelop
+}
+
+var (
+	xvaMu          sync.Mutex
+	xvaUnavailable = map[string]bool{}
+
+	xvaEnvelopIface = reflect.TypeOf((*vivid.Envelop)(nil)).Elem()
+	xvaActorIface   = reflect.TypeOf((*vivid.Actor)(nil)).Elem()
+	xvaRefIface     = reflect.TypeOf((*vivid.ActorRef)(nil)).Elem()
+	xvaTypeIface    = reflect.TypeOf((*reflect.Type)(nil)).Elem()
+	xvaLockerIface  = reflect.TypeOf((*sync.Locker)(nil)).Elem()
+	xvaSyncMap      = reflect.TypeOf(sync.Map{})
+)
+
+func xvaMiss(what string) {
+	xvaMu.Lock()
+	xvaUnavailable[what] = true
+	xvaMu.Unlock()
+}
+
+// XVUnavailable lists the observations that could not be located in this build of vivid (sorted).
+func XVUnavailable() []string {
+	xvaMu.Lock()
+	defer xvaMu.Unlock()
+	out := []string{}
+	for k := range xvaUnavailable {
+		out = append(out, k)
+	}
+	sort.Strings(out)
+	return out
+}
+
+// xvaOpen makes a (possibly unexported) field readable
+func xvaOpen(f reflect.Value) reflect.Value {
+	if !f.CanAddr() {
+		return f
+	}
+	return reflect.NewAt(f.Type(), unsafe.Pointer(f.UnsafeAddr())).Elem()
+}
+
+// xvaStruct: the addressable struct behind a pointer / interface value
+func xvaStruct(x any) (reflect.Value, bool) {
+	v := reflect.ValueOf(x)
+	for v.IsValid() && (v.Kind() == reflect.Pointer || v.Kind() == reflect.Interface) {
+		if v.IsNil() {
+			return reflect.Value{}, false
+		}
+		v = v.Elem()
+	}
+	if !v.IsValid() || v.Kind() != reflect.Struct || !v.CanAddr() {
+		return reflect.Value{}, false
+	}
+	return v, true
+}
+
+// xvaField: the field named fast if it satisfies pred; else, if exactly one field satisfies pred (ignoring the fields
+// listed in not), that one
+func xvaField(s reflect.Value, fast string, pred func(reflect.Type) bool, not ...string) (reflect.Value, bool) {
+	t := s.Type()
+	if sf, ok := t.FieldByName(fast); ok && len(sf.Index) == 1 && pred(sf.Type) {
+		return xvaOpen(s.Field(sf.Index[0])), true
+	}
+	found := -1
+	for i := 0; i < t.NumField(); i++ {
+		skip := false
+		for _, n := range not {
+			skip = skip || t.Field(i).Name == n
+		}
+		if skip || !pred(t.Field(i).Type) {
+			continue
+		}
+		if found >= 0 {
+			return reflect.Value{}, false // ambiguous
+		}
+		found = i
+	}
+	if found < 0 {
+		return reflect.Value{}, false
+	}
+	return xvaOpen(s.Field(found)), true
+}
+
+func xvaIsAtomicInt32(t reflect.Type) bool {
+	return t.Kind() == reflect.Struct && t.PkgPath() == "sync/atomic" && t.Name() == "Int32"
+}
+
+// xvaLoadInt32 reads an int32 word (plain or atomic.Int32) atomically
+func xvaLoadInt32(f reflect.Value) int32 {
+	if f.Kind() == reflect.Int32 && f.CanAddr() {
+		return atomic.LoadInt32((*int32)(unsafe.Pointer(f.UnsafeAddr())))
+	}
+	if xvaIsAtomicInt32(f.Type()) && f.CanAddr() {
+		return (*atomic.Int32)(unsafe.Pointer(f.UnsafeAddr())).Load()
+	}
+	return int32(f.Int())
+}
+
+// xvaRefPaths: the paths of a collection of actor references (a map with reference values, or a slice of references)
+func xvaRefPaths(f reflect.Value) []string {
+	out := []string{}
+	add := func(v reflect.Value) {
+		if v.IsValid() && v.CanInterface() {
+			if r, ok := v.Interface().(vivid.ActorRef); ok && r != nil {
+				out = append(out, r.GetPath())
+			}
+		}
+	}
+	switch f.Kind() {
+	case reflect.Map:
+		it := f.MapRange()
+		for it.Next() {
+			add(it.Value())
+		}
+	case reflect.Slice:
+		for i := 0; i < f.Len(); i++ {
+			add(f.Index(i))
+		}
+	}
+	sort.Strings(out)
+	return out
+}
+
+func xvaIsRefColl(t reflect.Type) bool {
+	return (t.Kind() == reflect.Map || t.Kind() == reflect.Slice) && t.Elem().Implements(xvaRefIface)
 }
 
 func XVInfo(c *Context) XVCtxInfo {
-	info := XVCtxInfo{
-		Path: c.ref.GetPath(), HasParent: c.parent != nil, State: atomic.LoadInt32(&c.state), Zombie: c.zombie,
-		StashLen: len(c.stash), StackLen: c.behaviorStack.Len(), Actor: c.actor, Mailbox: c.mailbox, Ref: c.ref,
+	info := XVCtxInfo{Ref: c.Ref(), HasParent: c.Parent() != nil, Mailbox: c.Mailbox()}
+	if info.Ref != nil {
+		info.Path = info.Ref.GetPath()
 	}
-	info.Stash = append(info.Stash, c.stash...)
-	for p := range c.children {
-		info.Children = append(info.Children, p)
+	for _, ch := range c.Children() {
+		info.Children = append(info.Children, ch.GetPath())
 	}
 	sort.Strings(info.Children)
-	for k := range c.watchers {
-		if i := strings.Index(k, "@"); i >= 0 {
-			k = k[i+1:]
+	s, ok := xvaStruct(c)
+	if !ok {
+		for _, w := range []string{"state", "zombie", "restarting", "stash", "watchers", "stack", "actor"} {
+			xvaMiss(w)
 		}
-		info.Watchers = append(info.Watchers, k)
+		return info
 	}
-	sort.Strings(info.Watchers)
+	if f, ok := xvaField(s, "state", func(t reflect.Type) bool { return t.Kind() == reflect.Int32 || xvaIsAtomicInt32(t) }); ok {
+		info.State = xvaLoadInt32(f)
+	} else {
+		xvaMiss("state")
+	}
+	if f, ok := xvaField(s, "zombie", func(t reflect.Type) bool { return t.Kind() == reflect.Bool }); ok {
+		info.Zombie = f.Bool()
+	} else {
+		xvaMiss("zombie")
+	}
+	if f, ok := xvaField(s, "restarting", func(t reflect.Type) bool {
+		return t.Kind() == reflect.Pointer && t.Elem().Kind() == reflect.Struct && strings.Contains(t.Elem().Name(), "Restart")
+	}); ok {
+		info.Restarting = !f.IsNil()
+	} else {
+		xvaMiss("restarting")
+	}
+	if f, ok := xvaField(s, "stash", func(t reflect.Type) bool { return t.Kind() == reflect.Slice && t.Elem().Implements(xvaEnvelopIface) }); ok {
+		info.StashLen = f.Len()
+		for i := 0; i < f.Len(); i++ {
+			if e, ok := f.Index(i).Interface().(vivid.Envelop); ok {
+				info.Stash = append(info.Stash, e)
+			}
+		}
+	} else {
+		xvaMiss("stash")
+	}
+	if f, ok := xvaField(s, "watchers", xvaIsRefColl, "children"); ok {
+		info.Watchers = xvaRefPaths(f)
+	} else {
+		xvaMiss("watchers")
+	}
+	if f, ok := xvaField(s, "behaviorStack", func(t reflect.Type) bool {
+		_, has := t.MethodByName("Len")
+		return has && t.Kind() == reflect.Pointer
+	}); ok && !f.IsNil() {
+		if out := f.MethodByName("Len").Call(nil); len(out) == 1 && out[0].CanInt() {
+			info.StackLen = int(out[0].Int())
+		} else {
+			xvaMiss("stack")
+		}
+	} else {
+		xvaMiss("stack")
+	}
+	if f, ok := xvaField(s, "actor", func(t reflect.Type) bool { return t == xvaActorIface }); ok {
+		if !f.IsNil() {
+			info.Actor, _ = f.Interface().(vivid.Actor)
+		}
+	} else {
+		xvaMiss("actor")
+	}
 	return info
 }
 
 // XVRegistered reports whether the registry maps the context's path to this very context.
-func XVRegistered(s *System, c *Context) bool {
-	v, ok := s.actorContexts.Load(c.ref.GetPath())
+func XVRegistered(sys *System, c *Context) bool {
+	s, ok := xvaStruct(sys)
 	if !ok {
+		xvaMiss("registry")
 		return false
 	}
-	cc, ok := v.(*Context)
-	return ok && cc == c
-}
-
-// XVRegistryPaths lists the registered paths (contexts and futures).
-func XVRegistryPaths(s *System) (ctxs []string, futures []string) {
-	s.actorContexts.Range(func(k, v any) bool {
-		if _, ok := v.(*Context); ok {
-			ctxs = append(ctxs, k.(string))
-		} else {
-			futures = append(futures, k.(string))
+	path := c.Ref().GetPath()
+	if f, ok := xvaField(s, "actorContexts", func(t reflect.Type) bool { return t == xvaSyncMap }); ok && f.CanAddr() {
+		v, found := (*sync.Map)(unsafe.Pointer(f.UnsafeAddr())).Load(path)
+		if !found {
+			return false
 		}
-		return true
-	})
-	sort.Strings(ctxs)
-	sort.Strings(futures)
-	return
-}
-
-func XVFutureAgents(s *System) int {
-	s.futureLock.Lock()
-	defer s.futureLock.Unlock()
-	n := 0
-	for _, m := range s.futureAgents {
-		n += len(m)
+		cc, isCtx := v.(*Context)
+		return isCtx && cc == c
 	}
-	return n
+	if f, ok := xvaField(s, "actorContexts", func(t reflect.Type) bool { return t.Kind() == reflect.Map && t.Key().Kind() == reflect.String }); ok {
+		v := f.MapIndex(reflect.ValueOf(path).Convert(f.Type().Key()))
+		if !v.IsValid() || !v.CanInterface() {
+			return false
+		}
+		cc, isCtx := v.Interface().(*Context)
+		return isCtx && cc == c
+	}
+	xvaMiss("registry")
+	return false
 }
 
-// XVRoot returns the root context.
-func XVRoot(s *System) *Context { return s.Context }
+// XVRoot returns the root context (nil if it cannot be located).
+func XVRoot(sys *System) *Context {
+	s, ok := xvaStruct(sys)
+	if ok {
+		if f, ok := xvaField(s, "Context", func(t reflect.Type) bool { return t == reflect.TypeOf((*Context)(nil)) }); ok && !f.IsNil() {
+			if c, ok := f.Interface().(*Context); ok {
+				return c
+			}
+		}
+	}
+	xvaMiss("root")
+	return nil
+}
 
 // XVStream dumps the event-stream tables: type name -> sorted subscriber paths, and path -> sorted type names.
-func XVStream(s *System) (map[string][]string, map[string][]string) {
-	es := s.eventStream.(*eventStream)
-	es.mu.RLock()
-	defer es.mu.RUnlock()
-	a := map[string][]string{}
-	for t, m := range es.subscribers {
-		l := []string{}
-		for p := range m {
-			l = append(l, p)
-		}
-		sort.Strings(l)
-		a[t.String()] = l
+func XVStream(sys *System) (map[string][]string, map[string][]string) {
+	a, b := map[string][]string{}, map[string][]string{}
+	root := XVRoot(sys)
+	if root == nil {
+		xvaMiss("stream")
+		return a, b
 	}
-	b := map[string][]string{}
-	for p, m := range es.subscriberTypes {
+	es, ok := xvaStruct(root.EventStream())
+	if !ok {
+		xvaMiss("stream")
+		return a, b
+	}
+	// the tables' lock, whatever kind it is: anything whose pointer is a sync.Locker
+	for i := 0; i < es.NumField(); i++ {
+		f := xvaOpen(es.Field(i))
+		if f.CanAddr() && f.Kind() == reflect.Struct && f.Addr().Type().Implements(xvaLockerIface) {
+			l := f.Addr().Interface().(sync.Locker)
+			l.Lock()
+			defer l.Unlock()
+			break
+		}
+		if f.Kind() == reflect.Pointer && !f.IsNil() && f.Type().Implements(xvaLockerIface) && f.Elem().Kind() == reflect.Struct {
+			l := f.Interface().(sync.Locker)
+			l.Lock()
+			defer l.Unlock()
+			break
+		}
+	}
+	typeName := func(k reflect.Value) string {
+		if k.CanInterface() {
+			if t, ok := k.Interface().(reflect.Type); ok && t != nil {
+				return t.String()
+			}
+		}
+		return fmt.Sprint(k)
+	}
+	byType := func(t reflect.Type) bool { return t.Kind() == reflect.Map && t.Key() == xvaTypeIface }
+	byPath := func(t reflect.Type) bool {
+		return t.Kind() == reflect.Map && t.Key().Kind() == reflect.String && t.Elem().Kind() == reflect.Map && t.Elem().Key() == xvaTypeIface
+	}
+	subs, ok1 := xvaField(es, "subscribers", byType)
+	rev, ok2 := xvaField(es, "subscriberTypes", byPath)
+	if !ok1 || !ok2 {
+		xvaMiss("stream")
+		return a, b
+	}
+	it := subs.MapRange()
+	for it.Next() {
 		l := []string{}
-		for t := range m {
-			l = append(l, t.String())
+		switch inner := it.Value(); inner.Kind() {
+		case reflect.Map:
+			if inner.Type().Key().Kind() == reflect.String {
+				for _, k := range inner.MapKeys() {
+					l = append(l, k.String())
+				}
+			} else {
+				l = xvaRefPaths(inner)
+			}
+		case reflect.Slice:
+			l = xvaRefPaths(inner)
 		}
 		sort.Strings(l)
-		b[p] = l
+		a[typeName(it.Key())] = l
+	}
+	it = rev.MapRange()
+	for it.Next() {
+		l := []string{}
+		for _, k := range it.Value().MapKeys() {
+			l = append(l, typeName(k))
+		}
+		sort.Strings(l)
+		b[it.Key().String()] = l
 	}
 	return a, b
 }
 
 // XVClassify describes runtime-internal messages the harness cannot type-switch on.
-// kind: 4 supervision context (ref = failing child), 5 pause, 6 resume, 7 restart (flag = poison), 8 watch, 9 unwatch, 0 other.
+// kind: 4 failure report (ref = failing child), 5 pause, 6 resume, 7 restart (flag = graceful), 8 watch, 9 unwatch, 0 other.
 func XVClassify(msg any) (kind int, ref vivid.ActorRef, flag bool) {
 	switch m := msg.(type) {
-	case *supervisionContext:
-		return 4, m.child.First(), false
+	case vivid.SupervisionContext:
+		return 4, m.Child().First(), false
 	case *messages.NoneArgsCommandMessage:
 		if m.Command == messages.CommandPauseMailbox {
 			return 5, nil, false
@@ -134,4 +373,32 @@ func XVClassify(msg any) (kind int, ref vivid.ActorRef, flag bool) {
 	return 0, nil, false
 }
 
-var _ = reflect.TypeOf
+// XVSupSubTargets lists, for an escalated failure report, the targets recorded in its sub-contexts (the contexts of the
+// supervisors below that already decided Escalate), outermost sub-context first. Empty for a first-level report.
+func XVSupSubTargets(ctx vivid.SupervisionContext) [][]string {
+	var out [][]string
+	cur, ok := xvaStruct(ctx)
+	if !ok {
+		xvaMiss("sup-sub-targets")
+		return nil
+	}
+	self := reflect.PointerTo(cur.Type())
+	for depth := 0; depth < 64; depth++ {
+		sub, ok := xvaField(cur, "subSupervisionContext", func(t reflect.Type) bool { return t == self })
+		if !ok {
+			xvaMiss("sup-sub-targets")
+			return nil
+		}
+		if sub.IsNil() {
+			return out
+		}
+		cur = sub.Elem()
+		ts, ok := xvaField(cur, "targets", xvaIsRefColl, "child", "supervisorChildren")
+		if !ok {
+			xvaMiss("sup-sub-targets")
+			return nil
+		}
+		out = append(out, xvaRefPaths(ts))
+	}
+	return out
+}
